@@ -59,7 +59,10 @@ PathStr(m) == IF m.t = "Identifier" THEN m.v ELSE PathStr(m.c[1]) \o "." \o m.c[
 
 (* pr: how often each static path X.y.z was read (a bag). Reads along static paths are not events -- the  *)
 (* property lets X.prototype.m be read before or after a this-argument -- but none may be added or lost. *)
-InitState(inj, hooks, late) == [n |-> 0, ev |-> <<>>, b |-> <<>>, cl |-> {}, pr |-> <<>>, inj |-> inj, hooks |-> hooks, late |-> late]
+(* d21: evaluate with the named deviation D21 -- an optional call X?.y.f?.(..) whose callee is itself a link of  *)
+(* the chain is made without its receiver                                                                      *)
+InitState(inj, hooks, late, d21) == [n |-> 0, ev |-> <<>>, b |-> <<>>, cl |-> {}, pr |-> <<>>, inj |-> inj, hooks |-> hooks,
+                                     late |-> late, d21 |-> d21]
 ReadPath(S, p) == [S EXCEPT !.pr = IF p \in DOMAIN @ THEN [@ EXCEPT ![p] = @ + 1] ELSE (p :> 1) @@ @]
 (* reading o.x.y reads o.x on the way *)
 RECURSIVE ReadPathAll(_, _)
@@ -185,7 +188,8 @@ ELink(x, S) ==
             LET c == ELink(b.c[1], S)
                 S1 == IF opt THEN Mark(c.S, Event("optguard", "", c.v, NoV, <<>>, <<>>, <<>>)) ELSE c.S
                 as == EArgs(b.c[2].c, 1, S1, <<>>)
-                S2 == Emit(as.S, Event("call", "", c.v, c.t, as.vs, <<>>, <<>>))
+                recv == IF S.d21 /\ opt /\ IsOptChain(b.c[1]) THEN NoV ELSE c.t
+                S2 == Emit(as.S, Event("call", "", c.v, recv, as.vs, <<>>, <<>>))
             IN Out3(S2, ResV(as.S.n), NoV)
           ELSE ERef(b, S)
 
@@ -243,7 +247,10 @@ EAssign(n, S) ==
        \* t = E : the temporary holds the value; t = [...E] is E iterated once, to be spread later
        \* t = (a?.b) : a chain in parentheses is complete, a guard on t does not continue it
        LET r == Eval(rhs, S)
-           closed == rhs.t = "ParenthesisExpression" /\ StripParen(rhs).t = "OptionalChainingExpression"
+           \* (parentheses the program wrote: around a native chain, (a?.b), or around a chain that was itself
+           \* lowered, ((t' = .., t' == null ? undefined : ..)); the lowering's own parentheses -- directly around
+           \* its sequence -- are not a closing: the lower part of one chain can be lowered on its own)
+           closed == rhs.t = "ParenthesisExpression" /\ rhs.c[1].t # "SequenceExpression"
        IN Out([r.S EXCEPT !.b = (lhs.v :> r.v) @@ @, !.cl = IF closed THEN @ \cup {lhs.v} ELSE @ \ {lhs.v}], r.v)
   ELSE IF lhs.t = "Identifier" THEN
        IF op = "=" THEN
@@ -362,8 +369,8 @@ Eval(n, S) ==
          IN Out(Emit(S1, Event("node", n.t \o "/" \o n.v \o "/" \o n.a, NoV, NoV, r.vs, r.S.ev, <<>>)), ResV(S1.n))
 
 (* the events of a whole program *)
-EffectsOf(tree, inj, hooks, late) ==
-  LET S == Eval(tree, InitState(inj, hooks, late)).S IN
+EffectsOf(tree, inj, hooks, late, d21) ==
+  LET S == Eval(tree, InitState(inj, hooks, late, d21)).S IN
   \* the bag of static-path reads outside any function rides along as a last pseudo-event
   Append(S.ev, Event("paths", "", [k |-> "bag", v |-> S.pr], NoV, <<>>, <<>>, <<>>))
 
